@@ -397,9 +397,10 @@ def _hierarchy_classes(ctx):
         raise AnalysisError("anchor H5Writer.fetch_handle not found")
     out = []
     for n in ast.walk(fh.node):
-        if isinstance(n, ast.Assign) and isinstance(n.value, ast.Dict) and any(
-            isinstance(t, ast.Name) and t.id == "hierarchy" for t in n.targets
-        ):
+        # the table: a dict literal {<class>: "<container name>"} bound to a local (whatever it is called)
+        if isinstance(n, ast.Assign) and isinstance(n.value, ast.Dict) and n.value.keys and all(
+            isinstance(v, ast.Constant) and isinstance(v.value, str) for v in n.value.values
+        ) and all(isinstance(k, (ast.Name, ast.Attribute)) for k in n.value.keys):
             for k in n.value.keys:
                 r = p.resolve_expr(fh.module, k)
                 if r and r[0] == "class":
